@@ -841,4 +841,119 @@ theorem validateYmd_ok (y m d : Int) (u : Unit) (h : Date.validateYmd y m d = .o
         dsimp only
         split <;> (rename_i heq; simp only [heq]))
 
+/-! ## Calendar units (phase 5, first part): `Trunc` / `Round` for `Date` -/
+
+macro "tr_units" : tactic => `(tactic| simp only [Date.trunc, Date.round, Date.truncCentury, Date.truncYear, Date.truncIsoYear,
+  Date.truncQuarter, Date.truncMonth, Date.truncWeek, Date.truncIsoWeek, Date.truncMonthStartWeek, Date.truncSundayStartWeek,
+  Date.roundCentury, Date.roundYear, Date.roundIsoYear, Date.roundQuarter, Date.roundMonth, Date.roundWeek, Date.roundIsoWeek,
+  Date.roundMonthStartWeek, Date.roundSundayStartWeek, Date.roundWeekInternal, Date.roundMonthStartWeekInternal,
+  Date.applyWeekTable, Date.year, Date.month, Date.day, bind, Except.bind, pure, Except.pure])
+
+@[tr_eq] theorem sub_to_date_eq (d k : Int) : Tr.sub_to_date d k = Date.subDays d k := by
+  unfold Tr.sub_to_date
+  tr_auto
+
+@[tr_eq] theorem current_date_eq (d k : Int) : Tr.current_date d k = Except.ok d := by
+  unfold Tr.current_date
+  tr_auto
+
+@[tr_eq] theorem Date.trunc_year_eq (d : Int) (h0 : -2440588 ≤ d) (h1 : d ≤ 2145043059) :
+    Tr.Date.trunc_year d = Date.trunc .year d := by
+  unfold Tr.Date.trunc_year
+  first
+  | (with_reducible_and_instances rfl)
+  | (try simp (disch := omega) only [tr_eq]
+     try tr_units
+     first | done | (with_reducible_and_instances rfl) | tr_auto)
+
+@[tr_eq] theorem Date.trunc_week_eq (d : Int) (h0 : -2440588 ≤ d) (h1 : d ≤ 2145043059) :
+    Tr.Date.trunc_week d = Date.trunc .week d := by
+  unfold Tr.Date.trunc_week
+  first
+  | (with_reducible_and_instances rfl)
+  | (try simp (disch := omega) only [tr_eq]
+     try tr_units
+     first | done | (with_reducible_and_instances rfl) | tr_auto)
+
+@[tr_eq] theorem Date.trunc_day_eq (d : Int) (h0 : -2440588 ≤ d) (h1 : d ≤ 2145043059) :
+    Tr.Date.trunc_day d = Date.trunc .day d := by
+  unfold Tr.Date.trunc_day
+  first
+  | (with_reducible_and_instances rfl)
+  | (try simp (disch := omega) only [tr_eq]
+     try tr_units
+     first | done | (with_reducible_and_instances rfl) | tr_auto)
+
+@[tr_eq] theorem Date.trunc_hour_eq (d : Int) (h0 : -2440588 ≤ d) (h1 : d ≤ 2145043059) :
+    Tr.Date.trunc_hour d = Date.trunc .hour d := by
+  unfold Tr.Date.trunc_hour
+  first
+  | (with_reducible_and_instances rfl)
+  | (try simp (disch := omega) only [tr_eq]
+     try tr_units
+     first | done | (with_reducible_and_instances rfl) | tr_auto)
+
+@[tr_eq] theorem Date.trunc_minute_eq (d : Int) (h0 : -2440588 ≤ d) (h1 : d ≤ 2145043059) :
+    Tr.Date.trunc_minute d = Date.trunc .minute d := by
+  unfold Tr.Date.trunc_minute
+  first
+  | (with_reducible_and_instances rfl)
+  | (try simp (disch := omega) only [tr_eq]
+     try tr_units
+     first | done | (with_reducible_and_instances rfl) | tr_auto)
+
+@[tr_eq] theorem Date.trunc_sunday_start_week_eq (d : Int) (h0 : -2440588 ≤ d) (h1 : d ≤ 2145043059) :
+    Tr.Date.trunc_sunday_start_week d = Date.trunc .sundayStartWeek d := by
+  unfold Tr.Date.trunc_sunday_start_week
+  first
+  | (with_reducible_and_instances rfl)
+  | (try simp (disch := omega) only [tr_eq]
+     try tr_units
+     first | done | (with_reducible_and_instances rfl) | tr_auto)
+
+@[tr_eq] theorem Date.round_century_eq (d : Int) (h0 : -2440588 ≤ d) (h1 : d ≤ 2145043059) :
+    Tr.Date.round_century d = Date.round .century d := by
+  unfold Tr.Date.round_century
+  first
+  | (with_reducible_and_instances rfl)
+  | (try simp (disch := omega) only [tr_eq]
+     try tr_units
+     first | done | (with_reducible_and_instances rfl) | tr_auto)
+
+@[tr_eq] theorem Date.round_year_eq (d : Int) (h0 : -2440588 ≤ d) (h1 : d ≤ 2145043059) :
+    Tr.Date.round_year d = Date.round .year d := by
+  unfold Tr.Date.round_year
+  first
+  | (with_reducible_and_instances rfl)
+  | (try simp (disch := omega) only [tr_eq]
+     try tr_units
+     first | done | (with_reducible_and_instances rfl) | tr_auto)
+
+@[tr_eq] theorem Date.round_day_eq (d : Int) (h0 : -2440588 ≤ d) (h1 : d ≤ 2145043059) :
+    Tr.Date.round_day d = Date.round .day d := by
+  unfold Tr.Date.round_day
+  first
+  | (with_reducible_and_instances rfl)
+  | (try simp (disch := omega) only [tr_eq]
+     try tr_units
+     first | done | (with_reducible_and_instances rfl) | tr_auto)
+
+@[tr_eq] theorem Date.round_hour_eq (d : Int) (h0 : -2440588 ≤ d) (h1 : d ≤ 2145043059) :
+    Tr.Date.round_hour d = Date.round .hour d := by
+  unfold Tr.Date.round_hour
+  first
+  | (with_reducible_and_instances rfl)
+  | (try simp (disch := omega) only [tr_eq]
+     try tr_units
+     first | done | (with_reducible_and_instances rfl) | tr_auto)
+
+@[tr_eq] theorem Date.round_minute_eq (d : Int) (h0 : -2440588 ≤ d) (h1 : d ≤ 2145043059) :
+    Tr.Date.round_minute d = Date.round .minute d := by
+  unfold Tr.Date.round_minute
+  first
+  | (with_reducible_and_instances rfl)
+  | (try simp (disch := omega) only [tr_eq]
+     try tr_units
+     first | done | (with_reducible_and_instances rfl) | tr_auto)
+
 end SqlDt.TrEq
